@@ -990,6 +990,20 @@ func main() {
 	if r.Replay != "" {
 		var c qcase
 		r.LoadReplay(&c)
+		if c.Kind == "step-extreme" {
+			var e extCase
+			r.LoadReplay(&e)
+			doExt(r, e)
+			r.Sample(e)
+			return
+		}
+		if c.Kind == "mysql-store" {
+			var m myCase
+			r.LoadReplay(&m)
+			doMy(r, m)
+			r.Sample(m)
+			return
+		}
 		if c.Kind == "api-history" {
 			doAPI(r, c)
 		} else if c.Kind == "long" {
@@ -1027,6 +1041,7 @@ func main() {
 		do(r, overflowEdge(r.R))
 	}
 	apiCase(r)
+	diversityLegs(r)
 	n := r.Scale(3000, 60000)
 	for k := 0; k < n; k++ {
 		c := randomHistory(r, r.R.Pick(12, 40, 120))
